@@ -295,10 +295,44 @@ def extra_families(res, tier, rnd):
         script += [P.DO("kill"), P.W("returned")]
         scs.append(P.scenario(len(scs), script, opts={"fps": 120, "nosighandler": False, "filter": {"drop": ["b:interrupt", "b:quit"]}}, isolate=True, watchdog_ms=4000))
         metas.append({"family": "signal-veto", "sig": sig})
+    for depth in (1, 2):
+        for verdict in ("keep", "drop-inner", "drop-all"):
+            # a Sequence whose second element is itself a Sequence (depth 2: that one contains a third): every sequence
+            # request is a message of its own, shown to the filter; one that is dropped runs none of its commands
+            def seq(d, base):
+                inner = [P.cmd(base + 1, ret=P.U(7000 + base + 1))]
+                if d > 0:
+                    inner.append(seq(d - 1, base + 10))
+                inner.append(P.cmd(base + 2, ret=P.U(7000 + base + 2)))
+                return {"id": 0, "seq": inner}
+            flt = {} if verdict == "keep" else {"drop_after": {"b:sequence": 1}} if verdict == "drop-inner" else {"drop": ["b:sequence"]}
+            script = [P.W("started"), P.W("idle"), P.DO("send", msg=P.U(1)), P.DO("sleep", us=40000), P.W("idle"), P.DO("sleep", us=10000), P.W("idle"),
+                      P.DO("kill"), P.W("returned")]
+            scs.append(P.scenario(len(scs), script, opts={"fps": 120, "filter": flt}, update={"u:1": {"cmd": seq(depth, 100)}}, parallel_ok=True, watchdog_ms=4000))
+            metas.append({"family": "nested-sequence", "verdict": verdict, "depth": depth})
     results, _ = P.run_scenarios("C16_extra", scs, timeout=600)
     bad = []
     for m, r in zip(metas, results):
         ev = r["events"]
+        if m["family"] == "nested-sequence" and not (P.machinery_problem(r) or not r["run_returned"]):
+            fb = [e for e in ev if e["ev"] == "FilterBegin"]
+            ub = [e.get("key") for e in ev if e["ev"] == "UpdateBegin"]
+            nseq = sum(1 for e in fb if e.get("key") == "b:sequence")
+            levels = m["depth"] + 1                         # sequence requests issued when nothing is dropped
+            outer = ["u:7101", "u:7102"]
+            inner = ["u:%d" % (7000 + 100 + 10 * k + j) for k in range(1, levels) for j in (1, 2)]
+            if m["verdict"] == "keep":
+                want_n, want = levels, sorted(outer + inner)
+            elif m["verdict"] == "drop-inner":
+                want_n, want = 2, sorted(outer)
+            else:
+                want_n, want = 1, []
+            got = sorted(k for k in ub if k.startswith("u:7"))
+            if nseq != want_n:
+                bad.append(("C16:nested-sequence", "%d sequence requests were issued (nesting depth %d, verdict %s); the filter was shown %d" % (want_n, m["depth"], m["verdict"], nseq), {"meta": m, "updates": ub}))
+            elif got != want:
+                bad.append(("C16:nested-sequence", "verdict %s on nested sequence requests: Update should receive the results %s, it received %s" % (m["verdict"], want, got), {"meta": m, "updates": ub}))
+            continue
         if P.machinery_problem(r) or not r["run_returned"]:
             bad.append(("C16:extra-hang", "scenario %s did not complete" % m, {"meta": m, "result": P.summarize(r)}))
             continue
@@ -318,9 +352,9 @@ def extra_families(res, tier, rnd):
                             {"meta": m, "updates": ub, "run_err": r["run_err"]}))
             elif nsig != 3:
                 bad.append(("C16:signal-veto", "3 signals were delivered, the filter was consulted for %d signal messages" % nsig, {"meta": m}))
-    res.oblige("Spec on real runs: the message of an Exec callback and the messages forwarded by the signal handler pass the filter once and its verdict is obeyed (%d runs)" % len(scs),
+    res.oblige("Spec on real runs: the message of an Exec callback and the messages forwarded by the signal handler and nested sequence requests pass the filter once and its verdict is obeyed (%d runs)" % len(scs),
                not bad, [b[:2] for b in bad[:2]])
-    res.coverage["extra_families"] = {"exec_callback": 6, "signal_veto": 2}
+    res.coverage["extra_families"] = {"exec_callback": 6, "signal_veto": 2, "nested_sequence": 6}
     return bad
 
 
